@@ -13,9 +13,9 @@ VARIABLES ms, pc, bad, nextScope, emitted
 vars == <<ms, pc, bad, nextScope, emitted>>
 
 Cfgs == {[fw |-> f, nmw |-> n, mwfail |-> mf, handler |-> h, registered |-> rg, method |-> m, recovery |-> rc,
-          scopemw |-> sm, provclosed |-> pcl, batch |-> b, outer |-> ou, closefail |-> cf, defeh |-> de, replacectx |-> rx] :
+          scopemw |-> sm, provclosed |-> pcl, batch |-> b, outer |-> ou, closefail |-> cf, defeh |-> de, replacectx |-> rx, noabort |-> na] :
             f \in Frameworks, n \in 0..MaxMw, mf \in 0..MaxMw, h \in {"ok", "err", "panic", "handle"}, rg \in BOOLEAN,
-            m \in {"ok", "panic"}, rc \in BOOLEAN, sm \in BOOLEAN, pcl \in BOOLEAN, b \in Batches, ou \in BOOLEAN, cf \in BOOLEAN, de \in BOOLEAN, rx \in BOOLEAN}
+            m \in {"ok", "panic"}, rc \in BOOLEAN, sm \in BOOLEAN, pcl \in BOOLEAN, b \in Batches, ou \in BOOLEAN, cf \in BOOLEAN, de \in BOOLEAN, rx \in BOOLEAN, na \in BOOLEAN}
 \* drop combinations that only repeat others
 Relevant(c) == /\ c.mwfail <= c.nmw
                /\ (c.handler # "handle" => (c.registered /\ c.method = "ok" /\ ~c.recovery))
@@ -26,6 +26,8 @@ Relevant(c) == /\ c.mwfail <= c.nmw
                /\ (c.closefail => (c.scopemw /\ ~c.provclosed /\ ~c.outer /\ c.nmw <= 1))
                /\ (c.replacectx => (c.fw = "fiber" /\ c.handler = "handle" /\ c.scopemw /\ ~c.provclosed /\ c.mwfail = 0
                                     /\ ~c.outer /\ ~c.closefail /\ ~c.defeh))
+               /\ (c.noabort => (c.fw = "gin" /\ c.handler = "handle" /\ c.registered /\ c.scopemw /\ ~c.provclosed /\ c.mwfail > 0
+                                 /\ ~c.outer /\ ~c.closefail /\ ~c.defeh /\ ~c.replacectx /\ c.batch = 1))
                /\ (c.defeh => (c.scopemw /\ (c.provclosed \/ c.mwfail > 0) /\ ~c.outer /\ ~c.closefail))
 
 Reqs(c) == 1..c.batch
@@ -81,9 +83,12 @@ Close(r) == /\ pc[r] = "close"
                THEN Feed([ev |-> "probe_close", probe |-> ms.reqs[r].probe]) /\ UNCHANGED pc
                ELSE IF ms.reqs[r].scope # NONE
                THEN Feed([ev |-> "scope_closed", scope |-> ms.reqs[r].scope])
-                    /\ pc' = [pc EXCEPT ![r] = IF CloseFails(ms.cfg) /\ ms.reqs[r].probe # 0 THEN "closeerr" ELSE "finish"]
+                    /\ pc' = [pc EXCEPT ![r] = IF CloseFails(ms.cfg) /\ ms.reqs[r].probe # 0 THEN "closeerr"
+                                                ELSE IF NoAbort(ms.cfg) THEN "resolveerr" ELSE "finish"]
                ELSE UNCHANGED <<ms, bad>> /\ pc' = [pc EXCEPT ![r] = "finish"]
             /\ UNCHANGED <<nextScope, emitted>>
+ResolveErr(r) == pc[r] = "resolveerr" /\ Feed([ev |-> "errh", rq |-> r, kind |-> "handle_resolve"])
+                 /\ pc' = [pc EXCEPT ![r] = "finish"] /\ UNCHANGED <<nextScope, emitted>>
 CloseErr(r) == pc[r] = "closeerr" /\ Feed([ev |-> "closeerrh"]) /\ pc' = [pc EXCEPT ![r] = "finish"]
                /\ UNCHANGED <<nextScope, emitted>>
 End == /\ \A r \in Reqs(ms.cfg) : pc[r] = "done"
@@ -92,7 +97,7 @@ End == /\ \A r \in Reqs(ms.cfg) : pc[r] = "done"
 Finish(r) == pc[r] = "finish" /\ Feed([ev |-> "done", rq |-> r, status |-> IF DefaultEH(ms.cfg) THEN 500 ELSE 0, panicked |-> PanicEscapes(ms.cfg)])
              /\ pc' = [pc EXCEPT ![r] = "done"] /\ UNCHANGED <<nextScope, emitted>>
 
-Next == End \/ \E r \in 1..3 : Arrive(r) \/ ErrScope(r) \/ Mw(r) \/ ErrMw(r) \/ Handler(r) \/ PanicH(r) \/ Close(r) \/ CloseErr(r) \/ Finish(r)
+Next == End \/ \E r \in 1..3 : Arrive(r) \/ ErrScope(r) \/ Mw(r) \/ ErrMw(r) \/ Handler(r) \/ PanicH(r) \/ Close(r) \/ CloseErr(r) \/ ResolveErr(r) \/ Finish(r)
 Spec == Init /\ [][Next]_vars
 
 Emit == IF EmitOn /\ \A r \in 1..3 : pc[r] = "new" THEN PrintT(<<"SCN", ToJson(ms.cfg)>>) ELSE TRUE
